@@ -160,7 +160,8 @@ class _ExpressionMixin(QuadraticViewsMixin):
                     and self.offset == other.offset
                     and self.linear == other.linear
                     and self.adj == other.adj)
-        except AttributeError:
+        except (AttributeError, ValueError):
+            # it's not a model or the variables don't match
             return False
 
     @abc.abstractmethod
